@@ -30,6 +30,46 @@ def wellformed_event(e):
         e['res'][0] in ('ok', 'v', 'kv', 'KeyError', 'TypeError')
 
 
+def run_leaf_histories(ck, plan, flavour='plain'):
+    """plan: history_worker jobs with jar=True (the container is one database record, the history is cut into
+    transactions).  Validated by TraceLeaf (LeafStore: calls as the sorted map says, reader = writer after a
+    commit, writer = committed contents after an abort)."""
+    results = jobs.run_jobs('harness.workers.history_worker', plan, flavour=flavour, pure=True)
+    traces, owners = [], []
+    for job, res, err in results:
+        ident = dict(fam=job['fam'], impl=job['impl'], kind=job['kind'], seed=job['seed'], sizes=[job.get('leaf'), job.get('internal')])
+        if err:
+            ck.violation('history worker died %s: %s' % (ident, err), dict(ident, kind='crash', err=err))
+            continue
+        for ti, tr in enumerate(res['traces']):
+            def ranks(x):
+                return all(ranks(y) for y in x) if isinstance(x, list) else (isinstance(x, int) and not isinstance(x, bool))
+            bad = [i for i, e in enumerate(tr) if not (wellformed_event(e) and ranks(e['rkeys']) and ranks(e['rvals']))]
+            if bad:
+                ck.violation('recorded call outside the model vocabulary %s: %s' % (ident, tr[bad[0]]),
+                             dict(ident, kind='malformed-event', line=bad[0], trace=tr[:bad[0] + 1]))
+                continue
+            traces.append(tr)
+            owners.append((ident, ti))
+    if traces:
+        bad, summ = judge.judge('TraceLeaf', traces, chunk=4000)
+        ck.add_tlc(dict(generated=summ['generated'], distinct=summ['distinct'], wall_s=round(summ['wall_s'], 1)),
+                   'TraceLeaf validation of %d recorded transactional histories' % len(traces))
+        ck.add_traces(len(traces))
+        ck.bump('leafstore_events', sum(len(t) for t in traces))
+        ck.bump('leafstore_commits', sum(1 for t in traces for e in t if e['op'] == 'commit'))
+        ck.bump('leafstore_aborts', sum(1 for t in traces for e in t if e['op'] == 'abort'))
+        for (ti, line) in bad:
+            ident, tno = owners[ti]
+            e = traces[ti][line]
+            why = summ.get('details', {}).get((ti, line), {}).get('why')
+            ck.violation('%s %s %s (one database record): %s at event %d %s(k=%s) -> %s, writer %s, reader %s; history %s' % (
+                ident['fam'], ident['impl'], ident['kind'], why, line, e['op'], e['k'], e['res'], e['keys'], e['rkeys'],
+                [[x['op'], x['k']] for x in traces[ti][max(0, line - 4):line + 1]]),
+                dict(ident, kind='leafstore-rejected', why=why, line=line, op=e['op'], trace=traces[ti][:line + 1]))
+    return results, traces
+
+
 def run_histories(ck, plan, flavour='plain', structure_judge=True):
     """plan: list of history_worker jobs.  Traces are validated by TraceMap,
     recorded structures by JudgeSound."""
